@@ -231,6 +231,17 @@ func checkC14(sc *Scenario, res *RunResult, t *Truth) []Violation {
 					if finite || len(q.DependsOn) > 0 {
 						continue
 					}
+					// the audit is not atomic: a command launched at the very instant of the audit
+					// (an update that has just returned) may not be there yet
+					starting := false
+					for _, in := range instsOf(q.Name) {
+						if in.ExecT >= c.CallT && in.ExecT <= c.RetT {
+							starting = true
+						}
+					}
+					if starting {
+						continue
+					}
 					add("process-not-running", "", fmt.Sprintf("%s %s has no live command; it is reported %s", where, q.Name, stBy[q.Name].Status), c.RetSeq)
 					return vs
 				}
@@ -579,7 +590,7 @@ func genC14(r *R, sc *Scenario, tier string) {
 		sc.Updates = append(sc.Updates, np)
 		at += Pick(r, 1500, 2000, 3000)
 		ops = append(ops, Op{AtMs: at, Op: Pick(r, "update", "update", "reload"), N: u})
-		at += 1000
+		at += 1500
 		ops = append(ops, Op{AtMs: at, Op: "audit", Args: gone})
 		cur = np
 	}
